@@ -6,8 +6,9 @@
 package main
 
 import (
-	"encoding/binary"
+	"bytes"
 	"crypto/sha256"
+	"encoding/binary"
 	"encoding/hex"
 	"encoding/json"
 	"errors"
@@ -38,8 +39,8 @@ var (
 	methodsQuick    = []string{"GET", "POST", "PUT", "DELETE", "HEAD", "OPTIONS", "PATCH", "post", "Put"}
 	methodsThorough = []string{"GET", "POST", "PUT", "DELETE", "HEAD", "OPTIONS", "PATCH", "TRACE", "get", "Post"}
 
-	ctsQuick    = []string{"none", "json", "form"}
-	ctsThorough = []string{"none", "json", "form", "json-charset", "text"}
+	ctsQuick    = []string{"none", "json", "form", "text-json-param"}
+	ctsThorough = []string{"none", "json", "form", "json-charset", "text", "text-json-param", "multipart-json-boundary"}
 
 	bodies = []string{"none", "json", "chunked"}
 
@@ -54,6 +55,8 @@ var (
 var ctValue = map[string]string{
 	"none": "", "json": "application/json", "form": "application/x-www-form-urlencoded",
 	"json-charset": "application/json; charset=utf-8", "text": "text/plain",
+	// other media types that merely mention the JSON type in a parameter
+	"text-json-param": "text/plain; application/json", "multipart-json-boundary": "multipart/form-data; boundary=application/json",
 }
 
 const glToken = "verifc11"
@@ -812,14 +815,19 @@ func run(c *lib.Ctx) {
 			defer pprof.StopCPUProfile()
 		}
 	}
-	// The last shard assembles the boot order with an unusable session store.
-	if c.ShardN >= 3 && c.ShardI == c.ShardN-1 {
+	// The last shard assembles the boot order with an unusable session store,
+	// the one before it with a stored password that is not a bcrypt hash.
+	if c.ShardN >= 4 && c.ShardI == c.ShardN-1 {
 		brokenSessionStore(c)
 		return
 	}
+	if c.ShardN >= 4 && c.ShardI == c.ShardN-2 {
+		plainStoredPassword(c)
+		return
+	}
 	nsh := c.ShardN
-	if nsh >= 3 {
-		nsh--
+	if nsh >= 4 {
+		nsh -= 2
 	}
 	mode, sub, subN := modeOfShard(c.ShardI, nsh)
 	if mode == "" {
@@ -946,12 +954,65 @@ func brokenSessionStore(c *lib.Ctx) {
 	c.Sample(map[string]any{"mode": "boot-broken-sessions", "outcome": "started"})
 }
 
+// plainStoredPassword: the user's stored password is not a bcrypt hash, so no
+// password is correct: basic credentials and the login call with any password
+// (the stored text included) must be refused on every route.
+func plainStoredPassword(c *lib.Ctx) {
+	quiet()
+	dir, err := os.MkdirTemp(c.TmpDir, "c11p-")
+	if err != nil {
+		c.EngineError(err.Error())
+		return
+	}
+	defer os.RemoveAll(dir)
+	vtime.SetVirtual(t0)
+	if _, err = home.VerifC11Setup(dir, "boot-plain-hash"); err != nil {
+		c.EngineError("set-up with a plain stored password failed: " + err.Error())
+		return
+	}
+	for _, target := range []string{"/control/status", "/control/clients", "/control/querylog", "/control/filtering/status", "/control/dns_info", "/"} {
+		for _, cred := range []string{"right-basic", "wrong-basic", "none"} {
+			cs := reqCase{Mode: "boot-plain-hash", Pattern: target, Base: target, Spell: "exact", Method: "GET", CT: "none", Body: "none", Cred: cred}
+			o := serve(&cs)
+			c.Count("evals", 1)
+			if _, ok := rejected(&cs, o); !ok || len(o.ran) > 0 {
+				c.Violation("plain-stored-password:not-rejected:"+cred, fmt.Sprintf("the stored password of the user is not a bcrypt hash (no password can be correct); GET %s with credentials %q is answered with HTTP %d (handlers run: %v)", target, cred, o.status, o.ran), cs)
+			}
+		}
+	}
+	// The login call itself.
+	for _, pw := range []string{home.VerifC11Password, "wrong"} {
+		body, _ := json.Marshal(map[string]string{"name": home.VerifC11User, "password": pw})
+		r := httptest.NewRequest(http.MethodPost, "http://agh.test/control/login", bytes.NewReader(body))
+		r.Header.Set("Content-Type", "application/json")
+		r.RemoteAddr = "192.0.2.77:4000"
+		w := httptest.NewRecorder()
+		_, _ = home.VerifC11Serve(w, r)
+		status, cookie := w.Code, w.Header().Get("Set-Cookie") != ""
+		c.Count("evals", 1)
+		if status == 200 || cookie {
+			c.Violation("plain-stored-password:login-succeeds", fmt.Sprintf("the stored password of the user is not a bcrypt hash; POST /control/login with password %q answers HTTP %d (session cookie set: %v)", pw, status, cookie),
+				reqCase{Mode: "boot-plain-hash", Pattern: "/control/login", Method: "POST", Cred: "login:" + pw})
+		}
+	}
+	c.Count("plain_stored_password_checked", 1)
+	c.Sample(map[string]any{"mode": "boot-plain-hash", "outcome": "every credential refused"})
+}
+
 func replay(c *lib.Ctx, raw json.RawMessage) string {
 	writeGLToken()
 	defer os.Remove("/tmp/gl_token_" + glToken)
 	var cs reqCase
 	if err := json.Unmarshal(raw, &cs); err != nil {
 		return err.Error()
+	}
+	if cs.Mode == "boot-plain-hash" {
+		before := c.NumViolationKeys()
+		plainStoredPassword(c)
+		if c.NumViolationKeys() > before {
+			return "violation reproduced: credentials are accepted although the stored password is not a bcrypt hash"
+		}
+		return ""
 	}
 	if cs.Mode == "boot-broken-sessions" {
 		before := c.NumViolationKeys()
@@ -1007,7 +1068,7 @@ func replay(c *lib.Ctx, raw json.RawMessage) string {
 func main() {
 	lib.Main(&lib.Harness{
 		Prop: "C11", Level: "exploration",
-		Shards: func(string) int { return 17 },
+		Shards: func(string) int { return 18 },
 		Budget: func(tier string) time.Duration {
 			if tier == "thorough" {
 				return 18 * time.Minute
@@ -1033,7 +1094,7 @@ func main() {
 				"authorized_but_not_run":          m.Counters["authorized_but_not_run"],
 				"skipped_real_handler_valid_cred": m.Counters["skipped_real_handler_valid_cred"],
 				"skipped_public_login":            m.Counters["skipped_public_login"],
-				"rule": "one start-up with users configured and a session store that cannot be opened (must be refused, or every guard must hold); 2 registration orders (boot: DHCP routes before the auth module, user from the configuration; install: everything up to the web module without a user and firstRun=true, then the steps of handleInstallConfigure) x every pattern of the real mux (reflection over the routing index + callback record + go/ast inventory, cross-checked with mux.Handler) x concrete paths (pattern itself; 9 paths for \"/\"; 2 for a subtree) x spellings {exact, trailing slash, //, /./, /x/../, upper case} x 9 methods (incl. the spellings post and Put) x content type {none, JSON, form} x body {none, {}, chunked {} of unknown length} x credentials {none, unknown cookie, expired cookie, valid cookie, wrong basic, right basic, basic with empty user and password, GL-Inet token cookie with a fresh token file while GL mode is off}; thorough adds spellings {percent-encoded letter, inner //, /x/%2e%2e/, query string naming public paths}, methods {TRACE, get, Post}, content types {JSON with charset, text/plain}, credentials {upper-case token, other user name, other cookie name, empty cookie, valid cookie + wrong basic, unknown cookie + right basic}. non-trivial = the request reaches the guard chain of a route (not answered by the mux's clean-path redirect with credentials). Bound: real handlers of package home are not executed with valid credentials, right method and acceptable content type (count skipped_real_handler_valid_cred) except GET on /control/profile, /control/status, /control/version.json; the real login handler is not executed with POST + acceptable content type",
+				"rule":                            "one start-up with users configured and a session store that cannot be opened (must be refused, or every guard must hold); 2 registration orders (boot: DHCP routes before the auth module, user from the configuration; install: everything up to the web module without a user and firstRun=true, then the steps of handleInstallConfigure) x every pattern of the real mux (reflection over the routing index + callback record + go/ast inventory, cross-checked with mux.Handler) x concrete paths (pattern itself; 9 paths for \"/\"; 2 for a subtree) x spellings {exact, trailing slash, //, /./, /x/../, upper case} x 9 methods (incl. the spellings post and Put) x content type {none, JSON, form} x body {none, {}, chunked {} of unknown length} x credentials {none, unknown cookie, expired cookie, valid cookie, wrong basic, right basic, basic with empty user and password, GL-Inet token cookie with a fresh token file while GL mode is off}; thorough adds spellings {percent-encoded letter, inner //, /x/%2e%2e/, query string naming public paths}, methods {TRACE, get, Post}, content types {JSON with charset, text/plain}, credentials {upper-case token, other user name, other cookie name, empty cookie, valid cookie + wrong basic, unknown cookie + right basic}. non-trivial = the request reaches the guard chain of a route (not answered by the mux's clean-path redirect with credentials). Bound: real handlers of package home are not executed with valid credentials, right method and acceptable content type (count skipped_real_handler_valid_cred) except GET on /control/profile, /control/status, /control/version.json; the real login handler is not executed with POST + acceptable content type",
 			}
 		},
 		Assumptions: []string{
